@@ -168,6 +168,7 @@ w(f"//@   ensures [location-kept-when-given] paramLoc != \"\" ==> {last('Param')
 w(f"//@   ensures [optionality-kept] paramType != nil ==> {last('Param')}.ParamOpt == old(paramType.Opt)")
 w(f"//@   ensures [untyped-is-any] paramType == nil ==> !{last('Param')}.ParamOpt && tagof({last('Param')}.ParamType) == typeid(\"relmod.TypePrimitive\")")
 w(f"//@   ensures [rows-kept] {kept('Param')}")
+w("//@   assert @call:arrai/relmod.normalizeParamMeta [tags-and-annotations-keyed-like-the-param-row] arg0 == s && arg1 == app && arg2 == ep && arg3 == paramName && arg4 == paramType && arg5 == param.ParamLoc && arg6 == param.ParamIndex && arg6 == paramIndex")
 w("")
 
 EVENT_SLICES = ["Event"] + meta_slices("Event") + PARAM_SLICES
